@@ -231,6 +231,7 @@ impl C17 {
     fn run_flavor_inner<A: Flavor>(case: &CaseC17) -> (BTreeSet<&'static str>, Option<Viol>) {
         let mode = Mode {
             trace: true,
+            prefix: true,
             ..Mode::default()
         };
         let mut ops = case.before.clone();
@@ -279,6 +280,16 @@ impl C17 {
             // the fresh arena could not be brought to the capacity of the cleared one (a refused resize): nothing to compare
             classes.insert("fresh-capacity-not-reached");
             return (classes, a.foreign.or(b.foreign));
+        }
+        // "indistinguishable from a freshly created one": also in the bytes in front of the data area (identification
+        // block, padding, header) - they decide whether the file opens again
+        {
+            let (x, y) = (&a.trace[cut - 1], &b.trace[pre2 - 1]);
+            if x.prefix != y.prefix {
+                let at = x.prefix.iter().zip(y.prefix.iter()).position(|(p, q)| p != q).unwrap_or(x.prefix.len().min(y.prefix.len()));
+                return (classes, Some(viol!("C17", "cleared-vs-fresh-prefix", "after clear() the bytes between the reserved prefix and the data area differ from a fresh arena with the same options at +{at}: cleared {:x?} fresh {:x?}", x.prefix, y.prefix)));
+            }
+            classes.insert("prefix-bytes-compared");
         }
         let pairs = std::iter::once((&a.trace[cut - 1], &b.trace[pre2 - 1]))
             .chain(a.trace[cut..].iter().zip(b.trace[pre2..].iter()));
@@ -878,13 +889,13 @@ impl Prop for C16 {
         p.w_discard = 2;
         p.owned_pct = 10;
         // "never written by any arena operation": truncate (unsync), clear and rewind belong to the history too
-        p.w_truncate = 4;
+        p.w_truncate = 8;
         p.w_clear = 1;
         p.w_rewind = 2;
         // file-backed cases: close + reopen in every mode (single-backend run only), so that the accessor table and the
         // data offset are also judged on arenas that were opened rather than created
-        p.w_reopen = 2;
-        p.reopen_modes = &[(3, 0), (1, 1), (2, 2), (1, 3)];
+        p.w_reopen = 4;
+        p.reopen_modes = &[(3, 0), (3, 1), (2, 2), (1, 3)];
         let delta = prop_oneof![4 => -3i32..=3, 1 => -40i32..0, 3 => 4i32..3000];
         (
             cfg_strategy(&p),
